@@ -173,4 +173,34 @@ PropCert(c, verdict, cidOk, dataOk) ==
 ImplCert(c, verdict, cidOk, dataOk) ==
   /\ verdict = ImplVerdict(c)
   /\ verdict = "deliver" => cidOk /\ dataOk
+-----------------------------------------------------------------------------
+(* Part 3: certification is per message.  An inbound message carries a       *)
+(* sequence of blocks; each block is of one verdict kind of the decision     *)
+(* table above (only the kinds the property pins down):                      *)
+MsgBlockKinds == {"deliver_v1", "deliver_v0", "drop_malformed", "drop_unsupported", "drop_badversion", "drop_v0_codec"}
+Deliverable(k) == k \in {"deliver_v1", "deliver_v0"}
+\* representative class of the decision table for a kind (the concretisation varies the rest)
+KindClass(k) ==
+  CASE k = "deliver_v1"       -> [pfx |-> "ok", ver |-> "v1", codec |-> "raw", hash |-> "sha2_256", mhlen |-> "true"]
+    [] k = "deliver_v0"       -> [pfx |-> "ok", ver |-> "v0", codec |-> "dagpb", hash |-> "sha2_256", mhlen |-> "true"]
+    [] k = "drop_malformed"   -> [pfx |-> "trailing", ver |-> "v1", codec |-> "raw", hash |-> "sha2_256", mhlen |-> "true"]
+    [] k = "drop_unsupported" -> [pfx |-> "ok", ver |-> "v1", codec |-> "raw", hash |-> "unassigned", mhlen |-> "true"]
+    [] k = "drop_badversion"  -> [pfx |-> "ok", ver |-> "v2", codec |-> "raw", hash |-> "sha2_256", mhlen |-> "true"]
+    [] k = "drop_v0_codec"    -> [pfx |-> "ok", ver |-> "v0", codec |-> "raw", hash |-> "sha2_256", mhlen |-> "true"]
+KindsConsistent == \A k \in MsgBlockKinds : PropVerdict(KindClass(k)) = (IF Deliverable(k) THEN "deliver" ELSE "drop")
+
+\* A delivery is [d, c]: d = position of the block whose bytes were delivered, c = position
+\* of the block whose (prefix, bytes) the reported CID was computed from.
+DeliverableIdx(kinds) == SelectSeq([i \in 1..Len(kinds) |-> i], LAMBDA i : Deliverable(kinds[i]))
+\* Impl: the per-block loop of on_message_received (verify, then push the pair)
+ImplMsgDeliver(kinds) == [j \in 1..Len(DeliverableIdx(kinds)) |-> [d |-> DeliverableIdx(kinds)[j], c |-> DeliverableIdx(kinds)[j]]]
+\* negative model: collect the CIDs of the verified blocks first, then pair them with the
+\* payload blocks by position
+ZipMsgDeliver(kinds) == [j \in 1..Len(DeliverableIdx(kinds)) |-> [d |-> j, c |-> DeliverableIdx(kinds)[j]]]
+\* Prop: the user receives exactly the deliverable blocks, in order, each under the CID
+\* recomputed from its own bytes
+PropMsg(kinds, delivered) ==
+  LET want == DeliverableIdx(kinds) IN
+  /\ Len(delivered) = Len(want)
+  /\ \A j \in 1..Len(want) : delivered[j].d = want[j] /\ delivered[j].c = delivered[j].d
 =============================================================================
